@@ -2205,7 +2205,13 @@ def _handleCancelInlineCallbacks(
     # another Deferred.  It needs to be cancelled.
     awaited = status.waitingOn
     assert awaited is not None
-    awaited.cancel()
+    try:
+        awaited.cancel()
+    except BaseException:
+        # As in DeferredList.cancel: what a user supplied canceller raises
+        # must not become the result of this function while it is still
+        # waiting (its eventual outcome would be lost).
+        log.failure("Exception raised from user supplied canceller")
 
     return status.deferred
 
